@@ -196,7 +196,8 @@ def run(ctx):
                 if e.target is None:
                     continue
                 for wr in ix.writes_of_event(e, depth=3):
-                    if wr["item"] == VMAP and wr["kind"] == "write" and wr["value"] is not None and len(wr["chain"]) == 1:
+                    # (a generic load-modify-store helper bound to the caller's closure does not count as a level)
+                    if wr["item"] == VMAP and wr["kind"] == "write" and wr["value"] is not None and len([k for k in wr["chain"] if k not in ctx.world.spec]) == 1:
                         # f calls a function that (directly) stores the map: f is the updater
                         writers.setdefault((f.pretty, e.target.pretty), []).append((q, wr))
     seen = set()
@@ -214,6 +215,8 @@ def run(ctx):
             key = "vamm-map-writer:%s" % fname
             if tag(val) == "param":
                 continue  # pure pass-through wrapper (store_vamm_map itself)
+            if any(tag(x) == "call" and payload(x)[0].startswith("std::ops::Fn") and kids(x) and tag(kids(x)[0]) == "param" for x in sym.walk(val)):
+                continue  # generic load-modify-store helper: the modification is its caller's closure, judged at each caller
             if key in seen and base_ok:
                 continue
             seen.add(key)
